@@ -8,6 +8,7 @@ from abc import ABC
 from abc import abstractmethod
 from typing import TYPE_CHECKING
 from typing import Any
+from typing import AsyncIterable
 from typing import Callable
 from typing import Generic
 from typing import Iterable
@@ -21,9 +22,11 @@ from jsonpath.function_extensions.filter_function import ExpressionType
 
 from .exceptions import JSONPathTypeError
 from .function_extensions import FilterFunction
+from .match import JSONPathMatch
 from .match import NodeList
 from .selectors import Filter as FilterSelector
 from .selectors import ListSelector
+from .selectors import _alist
 from .serialize import canonical_string
 
 if TYPE_CHECKING:
@@ -558,7 +561,12 @@ class SelfPath(Path):
                 return self._current_node(context)
             return NodeList()
 
-        return NodeList(self.path.finditer(context.current))
+        # Resolve relative to the current node, keeping the query argument as
+        # the root so `$` in nested filters still refers to the whole document.
+        matches: Iterable[JSONPathMatch] = self._current_node(context)
+        for selector in self.path.selectors:
+            matches = selector.resolve(matches)
+        return NodeList(matches)
 
     async def evaluate_async(self, context: FilterContext) -> object:
         if isinstance(context.current, str) or not isinstance(
@@ -568,9 +576,10 @@ class SelfPath(Path):
                 return self._current_node(context)
             return NodeList()
 
-        return NodeList(
-            [match async for match in await self.path.finditer_async(context.current)]
-        )
+        matches: AsyncIterable[JSONPathMatch] = _alist(self._current_node(context))
+        for selector in self.path.selectors:
+            matches = selector.resolve_async(matches)
+        return NodeList([match async for match in matches])
 
 
 class RootPath(Path):
